@@ -15,7 +15,7 @@ func init() {
 	Registry["C03"] = c03
 	Metas["C03"] = Meta{Level: "other", NeedCG: true, Technique: "static analysis: call-graph who-may-call, finite-domain decision table of the signer extracted from SSA, dominance / edge-dominance of persist-before-release",
 		Explain: "Static analysis of the signer. Decided: (R1) who may call a private-key Sign in node code; (R2) the height/round/step decision table of signBytesHRS, extracted exhaustively over the finite domain of orderings (3x3x3 x nil-ness x equality = 216 abstract states) and compared with the specification table; (R3) on every path of signBytesHRS that returns a fresh signature the five watermark fields are stored, save() is called, and its error is tested before the signature is released; save() propagates the atomic write's error; WriteFileAtomic writes the target only by rename after a successful temp write; (R4) a refused signature reaches neither a no-return call nor the internal message queue; (R5) the check-sign-persist sequence runs under the signer's mutex without releasing it, and a failed save restores all five watermark fields to their pre-update values. (R3 also) after the rename WriteFileAtomic hands back the rename's own error. NOT decided: durability under power loss (no fsync), the file system's rename semantics, and the behaviour over actual histories — this check decides these structural clauses and not the behaviour.",
-		Assume: []string{"process-crash model: rename(2) after a completed write is atomic", "go/ssa faithfully represents the source", "lexicographic H/R/S comparison uses only the comparisons present in signBytesHRS (any other branch condition forks both ways)"},
+		Assume:  []string{"process-crash model: rename(2) after a completed write is atomic", "go/ssa faithfully represents the source", "lexicographic H/R/S comparison uses only the comparisons present in signBytesHRS (any other branch condition forks both ways)"},
 	}
 }
 
@@ -29,6 +29,7 @@ func c03(c *Ctx) {
 	c03R5(c)
 	c03R6(c)
 	c03R7(c)
+	c03R8(c)
 	shared(c, "C18", c18R3)
 }
 
@@ -47,12 +48,12 @@ func c03R1(c *Ctx) {
 	}
 	// allowed caller -> reason
 	allowed := map[string]string{
-		"gemmill/types.(*DefaultSigner).Sign":                  "the Signer implementation itself",
-		"gemmill/types.(*PrivValidator).signBytesHRS":          "the guarded signing path",
-		"gemmill/p2p.signChallenge":                            "32-byte SHA-256 handshake challenge; cannot parse as canonical JSON sign-bytes",
+		"gemmill/types.(*DefaultSigner).Sign":           "the Signer implementation itself",
+		"gemmill/types.(*PrivValidator).signBytesHRS":   "the guarded signing path",
+		"gemmill/p2p.signChallenge":                     "32-byte SHA-256 handshake challenge; cannot parse as canonical JSON sign-bytes",
 		"gemmill/consensus/raft.(*ConsensusState).sign": "raft mode signs a block hash into Header.Extra (not a PBFT vote/proposal)",
-		"gemmill/types.SignCA":                                 "offline CA tool: signs pubkey bytes",
-		"gemmill/go-crypto.(PrivKeySecp256k1).Sign":            "implementation detail (btcec Sign on a hash) — not a PrivKey.Sign",
+		"gemmill/types.SignCA":                          "offline CA tool: signs pubkey bytes",
+		"gemmill/go-crypto.(PrivKeySecp256k1).Sign":     "implementation detail (btcec Sign on a hash) — not a PrivKey.Sign",
 	}
 	for _, s := range c.AllCalls(isSign) {
 		caller := core.Short(fname(s.Fn))
@@ -222,7 +223,9 @@ func c03R3(c *Ctx) {
 	f := c.Anchor(rule, pvType+".signBytesHRS")
 	if f != nil {
 		saves := f.CallsTo(cfgx.Named(pvType + ".save"))
-		signs := f.CallsTo(func(n string) bool { return n == "iface:gemmill/types.Signer.Sign" || n == "gemmill/types.(*DefaultSigner).Sign" })
+		signs := f.CallsTo(func(n string) bool {
+			return n == "iface:gemmill/types.Signer.Sign" || n == "gemmill/types.(*DefaultSigner).Sign"
+		})
 		nFresh := 0
 		for _, ret := range f.Returns() {
 			if len(ret.Results) != 2 || !strings.Contains(cfgx.Expr(ret.Results[0]), ".Sign(") {
@@ -474,7 +477,6 @@ func c03R5(c *Ctx) {
 		c.R.Ob(rule, "rollback:"+fld, ok, c.Pos(save), fname(f), "after a failed save the in-memory "+fld+" must again equal the file's (pre-update) value, otherwise the same-HRS branch hands out a signature that was never made durable: "+detail)
 	}
 }
-
 
 // c03R6: the signer file is written only with state this process produced.
 func c03R6(c *Ctx) {
